@@ -303,11 +303,16 @@ class H:
         from tinyflux.index import Index
 
         db = self.db
-        if not db._index.valid:
+        if not db.index.valid:
             return False
-        idx = db._index
+        idx = db.index
         ref = Index()
-        ref.build(db._storage._deserialize_storage_item(i) for i in db._storage)
+        ref.build(iter(db))
+        structural = ("_num_items", "_timestamps", "_storage_pos_sorted_by_ts", "_measurements", "_tags", "_fields")
+        has_struct = all(hasattr(idx, a) and hasattr(ref, a) for a in structural)
+        self._inv_observational(idx, ref, what, time_queries=not has_struct)
+        if not has_struct:
+            return True  # a refactored index: only the answers it gives are compared (above)
         require(idx._num_items == ref._num_items, lambda: f"INV {what}: _num_items {idx._num_items} vs rebuilt {ref._num_items}")
         require(len(idx) == len(ref), lambda: f"INV {what}: len")
         require(
@@ -345,6 +350,52 @@ class H:
             for (i, x), (_, y) in zip(a, b):
                 require(veq(x, y), lambda: f"INV {what}: _fields[{k}][{i}] {show(x)} vs {show(y)}")
         return True
+
+
+def _inv_observational(self, idx, ref, what, time_queries=True):
+    """Every answer the index can give == the answer of an index rebuilt from storage
+    (independent of how the index represents its data)."""
+    from tinyflux import FieldQuery, MeasurementQuery, TagQuery, TimeQuery
+
+    def same_set(a, b, name):
+        require(sorted(a, key=repr) == sorted(b, key=repr), lambda: f"INV {what}: {name}: {show(a)} vs rebuilt {show(b)}")
+
+    require(len(idx) == len(ref), lambda: f"INV {what}: len(index) {len(idx)} vs rebuilt {len(ref)}")
+    require(idx.empty == ref.empty, lambda: f"INV {what}: empty {idx.empty} vs rebuilt {ref.empty}")
+    ms = ref.get_measurements()
+    same_set(idx.get_measurements(), ms, "get_measurements")
+    for m in [None] + sorted(ms) + ["zz"]:
+        same_set(idx.get_tag_keys(m), ref.get_tag_keys(m), f"get_tag_keys({m!r})")
+        same_set(idx.get_field_keys(m), ref.get_field_keys(m), f"get_field_keys({m!r})")
+        a, b = idx.get_tag_values([], m), ref.get_tag_values([], m)
+        require(a == b, lambda: f"INV {what}: get_tag_values({m!r}) {a} vs rebuilt {b}")
+        ta, tb = idx.get_timestamps(m), ref.get_timestamps(m)
+        require(len(ta) == len(tb), lambda: f"INV {what}: get_timestamps({m!r}) {show(ta)} vs rebuilt {show(tb)}")
+        for x, y in zip(ta, tb):
+            require(x == y, lambda: f"INV {what}: get_timestamps({m!r}) {show(ta)} vs rebuilt {show(tb)}")
+        for fk in sorted(ref.get_field_keys(None)):
+            fa, fb = idx.get_field_values(fk, m), ref.get_field_values(fk, m)
+            require(len(fa) == len(fb), lambda: f"INV {what}: get_field_values({fk!r},{m!r}) {show(fa)} vs rebuilt {show(fb)}")
+            for x, y in zip(fa, fb):
+                require(veq(x, y), lambda: f"INV {what}: get_field_values({fk!r},{m!r}) {show(fa)} vs rebuilt {show(fb)}")
+    qs = [MeasurementQuery() == "m", MeasurementQuery() != "m"]
+    for k, vals in ref.get_tag_values([], None).items():
+        qs.append(TagQuery()[k].exists())
+        for v in vals:
+            qs.append(TagQuery()[k] == v)
+    for fk in ref.get_field_keys(None):
+        qs.append(FieldQuery()[fk].exists())
+    for q in qs:
+        a, b = idx.search(q).items, ref.search(q).items
+        require(a == b, lambda: f"INV {what}: index.search({q!r}) {sorted(a)} vs rebuilt {sorted(b)}")
+    pts = list(iter(self.db)) if time_queries else []
+    for p in pts[:3]:
+        for mk in (lambda t: TimeQuery() == t, lambda t: TimeQuery() < t, lambda t: TimeQuery() >= t):
+            a, b = idx.search(mk(p.time)).items, ref.search(mk(p.time)).items
+            require(a == b, lambda: f"INV {what}: index.search(time query at {show(p.time)}) {sorted(a)} vs rebuilt {sorted(b)}")
+
+
+H._inv_observational = _inv_observational
 
 
 def run_path(cfg, body):
@@ -484,6 +535,10 @@ def build_update(h, us):
             v = h.time_us("u") if t[1] == SYM else t[1]
             kw["time"] = mk_time(v)
             mk["time"] = v
+        elif t[0] == "callable_off":  # ("callable_off", delta_us, offset_us): result in another zone
+            d, off = t[1], t[2]
+            kw["time"] = lambda old, d=d, off=off: mk_time(us_of(old) + d, off)
+            mk["time"] = lambda old, d=d: old + d
         else:  # ("callable", delta_us)
             d = t[1]
             kw["time"] = lambda old, d=d: old + _dt.timedelta(microseconds=d)
